@@ -1,11 +1,37 @@
 (* C08 - Client-built requests are accepted and yield the requested document.
-   The builders are exercised, not re-implemented: the theorems below are the facts about the
-   parser / applier mirrors that make builder output acceptable; the builder side is checked by
-   correspondence on generated lifecycles (partial, see DESIGN C08). *)
+   The create builder is modelled (Sidetree/ClientCreate.v) and its output proved acceptable;
+   the builders of the signed operation types and the Sidetree client are exercised, not
+   re-implemented: for them the theorems below are the facts about the parser / applier mirrors
+   that make builder output acceptable, and the builder side is checked by correspondence on
+   generated lifecycles (partial, see DESIGN C08). *)
 From Coq Require Import ZArith NArith String List Bool.
-From Sidetree Require Import Base.Sha2 Json.Json Json.Jcs Sidetree.Protocol Sidetree.Hashing Sidetree.Parser Sidetree.Applier.
+From Sidetree Require Import Base.Sha2 Json.Json Json.Jcs Sidetree.Protocol Sidetree.Hashing Sidetree.Parser Sidetree.Applier
+     Json.JcsProps Json.JcsRoundTrip Sidetree.JequivDecode Sidetree.ClientCreate.
 Import ListNotations.
 Open Scope string_scope.
+
+(* A create request built by NewCreateRequest from valid input is accepted by a parser configured
+   with the matching protocol; the operation carries the suffix computed from the built suffix
+   data under the first configured algorithm, the requested commitments, anchor origin and
+   patches (up to member order: the request travels as canonical bytes). *)
+Theorem C08_create_built_accepted : forall cfg u n o t i bytes sd d a rest,
+  build_create i = Some (bytes, sd, d) ->
+  algs cfg = a :: rest -> (a = 18%N \/ a = 19%N) -> In (ci_code i) (algs cfg) ->
+  (Z.of_nat (String.length bytes) <= P_MaxOperationSize cfg)%Z ->
+  (Z.of_nat (String.length (ci_recovery_c i)) <= P_MaxOperationHashLength cfg)%Z ->
+  (Z.of_nat (String.length (ci_update_c i)) <= P_MaxOperationHashLength cfg)%Z ->
+  (Z.of_nat (String.length (sd_delta_hash sd)) <= P_MaxOperationHashLength cfg)%Z ->
+  (forall c, jcs (img_delta d) = Some c -> (Z.of_nat (String.length c) <= P_MaxDeltaSize cfg)%Z) ->
+  Forall is_obj (ci_patches i) -> Forall wfnum (ci_patches i) -> wfnum (ci_origin i) ->
+  (forall o', jequiv (ci_origin i) o' -> o o' = true) ->
+  (forall p p', In p (ci_patches i) -> jequiv p p' -> patch_enabled cfg p' = true /\ Validator.validate_patch u n p' = true) ->
+  exists p d',
+    parse_operation cfg u n o t bytes false = Some p /\
+    p_type p = "create" /\ calc_mh (img_suffix_data sd) a = Some (p_suffix p) /\
+    p_delta p = Some d' /\ d_update_c d' = ci_update_c i /\ Forall2 jequiv (ci_patches i) (d_patches d') /\
+    (exists sd', p_suffix_data p = Some sd' /\ sd_recovery_c sd' = ci_recovery_c i /\ jequiv (ci_origin i) (sd_origin sd')).
+Proof. exact create_built_accepted. Qed.
+Print Assumptions C08_create_built_accepted.
 
 (* a reveal value computed from a key validates against that key (what builders rely on when
    they derive the reveal value from the signer's key and the operation commitment's algorithm) *)
